@@ -4,7 +4,7 @@ import ast
 from engine import docterm as D
 from engine import facts
 from engine.astutil import src, call_name, dotted, Guards, names_in
-from engine.interp import (Const, Sym, SymStr, ListV, TupleV, ValueV, CtxV, DocV, TypeV, FuncV, Prim, NONE, TRUE, FALSE,
+from engine.interp import (Const, Sym, SymStr, ListV, TupleV, DictV, ValueV, CtxV, DocV, TypeV, FuncV, Prim, NONE, TRUE, FALSE,
                            Undecided, prov, Interp)
 from engine.loader import AnalysisError
 from . import shape as S
@@ -90,14 +90,33 @@ def run(repo, rep):
 
     # ---------------------------------------------------------------- C17.b
     n = 0
-    # pretty_call forwards unchanged
-    rets = [r for r in ast.walk(pc.node) if isinstance(r, ast.Return) and r.value is not None]
-    a = pc.node.args
+    # pretty_call forwards unchanged: interpreted with pretty_call_alt as a recording primitive
+    seen = []
+
+    def p_rec(it_, a_, k_, n_):
+        b_ = dict(zip(pca.params, a_))
+        b_.update(k_)
+        seen.append(b_)
+        return Sym('<call-doc>')
+    itf = S.interp(repo, 'builder', {'pretty_call_alt': p_rec})
+    itf.concrete_context = True
     n += 1
-    ok = len(rets) == 1 and isinstance(rets[0].value, ast.Call) and call_name(rets[0].value) == 'pretty_call_alt' and \
-        [src(x) for x in rets[0].value.args] == [pc.params[0], pc.params[1], a.vararg.arg if a.vararg else '?', a.kwarg.arg if a.kwarg else '?']
-    rep.check(ok, 'C17.b', 'pretty_call:forwards', pc.where, 'pretty_call(ctx, fn, *args, **kwargs) -> pretty_call_alt(ctx, fn, args, kwargs)',
-              'pretty_call returns %s' % [src(r.value) for r in rets], nontrivial=True)
+    try:
+        cx = Sym('CTX')
+        prs = itf.explore(pc, [cx, Sym('F', 'callable'), Sym('A0'), Sym('A1')], {'k0': Sym('V0'), 'k1': Sym('V1')})
+        ok = len(prs) == 1 and prs[0].raised is None and len(seen) == 1 and prov(prs[0].value) == '<call-doc>'
+        got = None
+        if ok:
+            b_ = seen[0]
+            kw = b_.get('kwargs')
+            kwl = [(prov(k_), prov(v_)) for k_, v_ in (kw.items if isinstance(kw, DictV) else [tuple(x.items) for x in itf.iterate(kw)])] if kw is not None else None
+            got = (prov(b_.get('ctx')), prov(b_.get('fn')), [prov(x) for x in itf.iterate(b_.get('args'))] if b_.get('args') is not None else None, kwl)
+            ok = got == ('CTX', 'F', ['A0', 'A1'], [("'k0'", 'V0'), ("'k1'", 'V1')])
+        rep.check(ok, 'C17.b', 'pretty_call:forwards', pc.where, 'pretty_call(ctx, fn, *args, **kwargs) -> pretty_call_alt(ctx, fn, args, kwargs)',
+                  'pretty_call(CTX, F, A0, A1, k0=V0, k1=V1) hands pretty_call_alt %s' % (got if got is not None else [p_.raised.what if p_.raised else prov(p_.value) for p_ in prs],),
+                  nontrivial=True)
+    except Undecided as e:
+        rep.undecided('C17.b', 'pretty_call:forwards', pc.where, str(e))
     itm = S.interp(repo, 'builder', {'build_fncall': S.p_build_fncall})
     for na in range(0, 3):
         for nk in range(0, 3):
@@ -119,7 +138,22 @@ def run(repo, rep):
                         rep.fail('C17.b', lab, pca.where, 'pretty_call_alt raises / returns no document (%s)' % (pr.raised.what if pr.raised else pr.value))
                         continue
                     t = pr.value.t
-                    if pr.assumed('depth_left', True):
+                    from .c11 import depth_feasible
+                    at0, at1 = depth_feasible(pr.facts, 0), depth_feasible(pr.facts, 1)
+                    shown = D.show(t)
+                    from .c11 import is_placeholder
+                    is_ph = 'Sub(' not in shown and is_placeholder(t)
+                    if at0:
+                        n += 1
+                        rep.check(is_ph, 'C17.b', lab + ':depth-placeholder', pca.where,
+                                  'with no depth left the call is shown as F(...) and nothing below it is printed',
+                                  'on a path taken when no depth is left pretty_call_alt returns %s' % shown[:100], nontrivial=True)
+                        continue
+                    if at0 is None or not at1:
+                        continue
+                    if is_ph and (na or nk):
+                        n += 1
+                        rep.fail('C17.b', lab + ':depth-placeholder', pca.where, 'pretty_call_alt returns the placeholder %s with one level of depth left' % shown[:80])
                         continue
                     n += 1
                     if not isinstance(t, D.Call):
